@@ -40,12 +40,14 @@ structure W where
   status : Int            -- responseWriter.status
   length : Int            -- responseWriter.length, -1 = noWritten
   ctype : Option Bytes    -- underlying Header()["Content-Type"] (none = key absent)
+  sent : Option (Option Bytes)  -- the Content-Type at the moment WriteHeader reached the underlying
+                                -- writer (what net/http puts on the wire); none = nothing committed yet
   log : List Ev           -- calls the underlying writer has received so far
   deriving DecidableEq, Repr
 
 /-- `reset(w2)`: state at the beginning of a request; `ct` = a Content-Type that is already present on
     the underlying writer (set by an outer http.Handler). -/
-def W.fresh (ct : Option Bytes) : W := ⟨0, -1, ct, []⟩
+def W.fresh (ct : Option Bytes) : W := ⟨0, -1, ct, none, []⟩
 
 /-- `Written()` -/
 def W.written (w : W) : Bool := w.length != -1
@@ -54,7 +56,7 @@ def W.written (w : W) : Bool := w.length != -1
 def ensure (w : W) : W :=
   if w.length = -1 then
     let st := if w.status = 0 then 200 else w.status
-    { w with status := st, length := 0, log := w.log ++ [.wh st] }
+    { w with status := st, length := 0, sent := some w.ctype, log := w.log ++ [.wh st] }
   else w
 
 /-- operations that reach the writer -/
